@@ -124,6 +124,102 @@ def check_reversal_classification(ck, fn, main_paths):
     ck.floor('single-direction computing paths judged for reversal', n_judged, 1)
 
 
+def check_reversal_claims(ck, fn, main_paths):
+    """D11 - the converse of D9.  A path taken because the step count exceeds the steps made
+    before a reversal (a lower bound on steps against a quantity of rate and accel) treats the
+    move as one that reverses: its duration is solved for a target one step short of the final
+    position.  Such a path must lie in the region where the rate sequence r_t = r_1 +
+    accel*(t-1) does change sign after tick 1: accel != 0, r_1 != 0, sign(r_1) != sign(accel).
+    Where r_1 = 0 (the motor rests during tick 1 and then runs accel's way) or r_1 and accel
+    agree, nothing reverses and the shortened target gives a duration one step too small.
+    Decided on integer points that include the rest-at-tick-1 line rate = TRUNC(accel/2) - accel
+    for even and odd accel."""
+    from fractions import Fraction
+    q = fn.qualname
+    steps, rate, accel = V('steps'), V('rate'), V('accel')
+    r1 = rate - mk_func('TRUNC', accel / 2) + accel
+    scale = 1000003
+    avs = [k * scale + d for k in (-7, -4, -2, -1, 1, 2, 4, 7) for d in (0, 1)] + \
+          [-41475905, 41475905, -9, 9, -8, 8, -3, 3, -2, 2, -1, 1]
+    sgn = lambda x: (x > 0) - (x < 0)
+    points = []
+    for av in avs:
+        rest = int(Fraction(av, 2)) - av          # r_1 = 0
+        for rv in (rest, rest + sgn(av), rest + 5 * sgn(av) * scale):   # r_1 = 0 / same sign
+            if rv != 0 or True:
+                points.append((rv, av))
+    n_judged = 0
+    witness = None
+    seen = set()
+    for o, cut, mode in main_paths:
+        if mode != 'clear' or not (isinstance(o.value, Tup) and len(o.value.items) == 3):
+            continue
+        conds, claims = [], False
+        evaluable = True
+        bounds = []
+        for c_, t_ in o.state.path:
+            nc = motion.norm_path_cond(c_, t_)
+            if nc is None:
+                continue
+            names = {a[1] for a in nc[0].all_atoms() if a[0] == 'v'}
+            if not names <= {'steps', 'rate', 'accel'} or sqrt_args(nc[0]):
+                # everything decided before this point is shared by the path the same input
+                # takes in the real function; root selection (later) is not needed here
+                break
+            conds.append(nc)
+            if 'steps' in names and motion.identify(nc[0], [steps], []) is None:
+                rest_ = nc[0].subs({('v', 'steps'): Sym.const(0)})
+                coef = (nc[0] - rest_) / steps
+                if coef.is_const() and coef.const_value() != 0 and not rest_.is_const() and \
+                        nc[1] in ('>', '>=', '<', '<='):
+                    bounds.append((coef.const_value() > 0) == (nc[1] in ('>', '>=')))
+        if bounds:
+            # the sign of steps on this path (steps < 0 is mirrored: |steps| = -steps)
+            pos_ok = all(motion._holds(e.evaluate({'steps': Fraction(1)}), op)
+                         for e, op in conds if motion.identify(e, [steps], []) is not None)
+            neg_ok = all(motion._holds(e.evaluate({'steps': Fraction(-1)}), op)
+                         for e, op in conds if motion.identify(e, [steps], []) is not None)
+            if pos_ok == neg_ok:
+                continue
+            # |steps| bounded from below by a quantity of rate and accel: "reverses within the move"
+            claims = any(b == pos_ok for b in bounds)
+        if not claims:
+            continue
+        n_judged += 1
+        if not evaluable:
+            continue
+        key = frozenset((repr(e), op) for e, op in conds)
+        if key in seen:
+            continue
+        seen.add(key)
+        for rv, av in points:
+            for sv in (5, -5, 4000, -4000):
+                m = -1 if sv < 0 else 1
+                asg = {'rate': Fraction(rv * m), 'accel': Fraction(av * m), 'steps': Fraction(sv)}
+                try:
+                    if not all(motion._holds(e.evaluate(asg), op) for e, op in conds):
+                        continue
+                    r1v = r1.evaluate(asg)
+                except (ZeroDivisionError, KeyError, ValueError, OverflowError):
+                    continue
+                if r1v == 0 or sgn(r1v) == sgn(av * m):
+                    witness = (rv * m, av * m, sv, r1v)
+                    break
+            if witness:
+                break
+        if witness:
+            break
+    rv, av, sv, r1v = witness or (0, 0, 0, 0)
+    ck.ob('C03-D11-reversal-claimed', q, witness is None,
+          '%s treats steps=%d, rate=%d, accel=%d as a move that reverses direction (path chosen '
+          'because the step count exceeds the steps made before the reversal; the duration is '
+          'solved for a target one step short), although the rate at tick 1 is %d and accel is '
+          '%d: the rate never changes sign after tick 1, nothing reverses, and the duration comes '
+          'out one step too small' % (q, sv, rv, av, r1v, av), fn.loc(),
+          key='calculate_lm::reversal-claimed')
+    ck.floor('reversal-claiming computing paths judged', n_judged, 1)
+
+
 def check_root_guard(ck, fn, main_paths):
     """D8: the roots of the duration quadratic are computed for every non-negative discriminant.
     A path that skips the square root may do so only under discriminant < 0 (no real root); a
@@ -527,6 +623,7 @@ def run(ck, prog, tier):
     ck.floor('constant-rate computing paths', n_const[0], 4)
     check_root_guard(ck, fn, main_paths)
     check_reversal_classification(ck, fn, main_paths)
+    check_reversal_claims(ck, fn, main_paths)
     check_root_positive(ck, fn, main_paths)
     check_steps_before_reversal(ck, fn, main_paths)
     n_paths, n_ops = motion.check_precision(ck, 'C03-D5-precision', fn, all_out)
